@@ -357,6 +357,7 @@ func c14EndToEnd(r *hx.Run, rnd *rand.Rand, shapes []locSpec) {
 				go func(g int) {
 					defer twg.Done()
 					cl := hx.NewClient(nil)
+					defer cl.CloseIdle()
 					for k := 0; !stopTraffic.Load(); k++ {
 						a := addr
 						if k%2 == 1 {
